@@ -129,6 +129,8 @@ def obligations(tier):
     upairs = [[3, 7], [7, 14], [2, 3], [2, 100], [4, 38], [3, 7, 14]]
     obs.append(Ob('unordered-config/latin_1', framing(lambda: choose('bits', upairs), 'latin_1', False, 22, sub=False, cfgs=UNORDERED), 600,
                   'caller-supplied configuration whose keys are not in numeric order: element groups %s, data 0..22' % upairs, _funcs))
+    obs.append(Ob('bit1-clear-single/latin_1', framing(lambda: choose('bits', [[9], [33], [41], [49], [73], [24], [2]]), 'latin_1', False, 14, sub=False, bit1=False), 600,
+                  'one element, secondary-bitmap flag clear - among them elements whose bit is the first of a bitmap byte (9, 33, 41, 49, 73)', _funcs))
     obs.append(Ob('bit1-clear/latin_1', framing(lambda: choose('bits', [[2, 71], [63, 71], [93, 94], [3, 127], [65 - 2, 66 + 5]]), 'latin_1', False, 20, sub=False, bit1=False), 600,
                   'incoming bitmaps with bit 1 clear and elements above 64 flagged (the bitmap is always 16 bytes): framing must not depend on bit 1', _funcs))
     obs.append(Ob('triples/latin_1', framing(lambda: choose('bits', triples), 'latin_1', False, 16 if q else 26, sub=False), 900,
